@@ -18,6 +18,7 @@ ANCHORS = ['pycaption.geometry:Size.as_percentage_of', 'pycaption.geometry:Point
            'pycaption.geometry:Layout.as_percentage_of', 'pycaption.geometry:Layout.fit_to_screen',
            'pycaption.base:BaseWriter._relativize_and_fit_to_screen',
            'pycaption.webvtt:WebVTTWriter._convert_positioning', 'pycaption.geometry:Size.__str__']
+THOROUGH_SCALE = 6        # random budgets of the thorough tier are multiplied by this
 REQUIRE = {'writes_DFXPWriter': 100, 'writes_SAMIWriter': 50, 'writes_WebVTTWriter': 100,
            'refusals_expected_and_seen': 50, 'values_compared': 1000, 'unit_px': 50, 'unit_em': 50,
            'unit_pt': 50, 'unit_c': 50, 'fit_extent_added': 30, 'fit_extent_clamped': 30,
